@@ -313,11 +313,14 @@ inline std::string OpKeyJson(const JVal& op)
 	if (op.HasMember("ku")) return "[\"ku\"," + std::to_string(op["ku"].GetUint64()) + "]";
 	return "[]";
 }
+// (only the plain load runs record cursor states: in fault-injection runs the recorder's own allocations would be fault points)
+inline bool& ScopeStateRecording() { static bool on = false; return on; }
 template <class TArchive>
 void LogScopeState(const TArchive& archive, Log* log, const std::string& kind, const std::string& keyJson)
 {
 	if constexpr (TArchive::IsLoading())
 	{
+		if (!ScopeStateRecording()) return;
 		const std::string st = ScopeStateJson(archive);
 		if (!st.empty()) log->AddState("{\"op\":\"" + kind + "\",\"k\":" + keyJson + "," + st + "}");
 	}
@@ -331,7 +334,7 @@ void RunObjectOps(TArchive& archive, const JVal& opsArr, Log* log, TSelf* self, 
 	{
 		const std::string kind = op["op"].GetString();
 		struct StateAtExit { const TArchive& a; Log* l; const JVal& o; const std::string& k; bool armed = true;
-			~StateAtExit() { if (armed && std::uncaught_exceptions() == 0 && k != "base") LogScopeState(a, l, k, OpKeyJson(o)); } } stateAtExit{ archive, log, op, kind };
+			~StateAtExit() { try { if (armed && ScopeStateRecording() && std::uncaught_exceptions() == 0 && k != "base") LogScopeState(a, l, k, OpKeyJson(o)); } catch (...) { } } } stateAtExit{ archive, log, op, kind };
 		if (kind == "base")
 		{
 			if constexpr (std::is_same_v<TSelf, ScriptObj>) {
@@ -564,6 +567,7 @@ std::string RunLoad(const JVal& scn, const std::string& doc, const std::string& 
 	const std::string rk = root["k"].GetString();
 	size_t refused = 0;
 	TerminateContext() = std::string(scn["id"].GetString()) + "/" + medium;
+	struct RecordingOn { RecordingOn() { ScopeStateRecording() = true; } ~RecordingOn() { ScopeStateRecording() = false; } } recordingOn;
 	try
 	{
 		auto loadWith = [&](auto& target) {
@@ -688,6 +692,7 @@ std::string RunFault(const JVal& scn, const std::string& doc, const std::string&
 {
 	Log log;
 	log.ev.reserve(1 << 16);
+	log.st.reserve(1 << 16);
 	std::string exc;
 	exc.reserve(1 << 12);
 	exc = "[\"none\"]";
